@@ -52,6 +52,14 @@ structure TransformRow where
   direct : Bool            -- `return self.change(...)`: the scaled units survive to the caller
   deriving DecidableEq, Repr
 
+/-- structural facts about the operator code, read by the translator -/
+structure Flags where
+  divRestoresUnits : Bool    -- `__truediv__` does `x.units = xunits` after `as_constant()` (as `__mul__`)
+  powSetsUnits : Bool        -- `__pow__` (general exponent) returns the generic class with `units ** n`
+  recipSetsUnits : Bool      -- the mixins' `__rtruediv__` set `units = x.units / self.units`
+  omegaNeedsQuantity : Bool  -- the omega-domain cases of `__compat_add__` sit under a quantity test
+  deriving DecidableEq, Repr
+
 structure Tables where
   mul : List (Quantity × Quantity × Quantity)
   div : List (Quantity × Quantity × Quantity)
@@ -61,6 +69,7 @@ structure Tables where
   exprmap : List (Quantity × Domain × Domain)
   transforms : List TransformRow
   knownDims : List Dim3
+  flags : Flags
 
 structure Cfg where
   loose : Bool
@@ -237,11 +246,12 @@ def symDomain : Domain → Domain
 /-- `ImpedanceMixin/AdmittanceMixin.__rtruediv__` for a constant numerator: builds the
     reciprocal immittance by value (`admittance(x.expr / self.expr)`), class defaults.
     `impedance(expr)` chooses the class from the expression: an unchanging value gives a
-    constant-domain class, otherwise the domain of the variable it depends on -/
-def recipImmittance (a : Opd) : Outcome :=
+    constant-domain class, otherwise the domain of the variable it depends on; `nu` are the
+    numerator's units -/
+def recipImmittance (nu : U) (a : Opd) : Outcome :=
   let q := if a.q = .impedance then Quantity.admittance else .impedance
   let d := if a.unch then exprmapM T q .constant else exprmapM T q (symDomain a.dom)
-  .ok d q (defaultUnits T d q)
+  .ok d q (if T.flags.recipSetsUnits then nu - a.units else defaultUnits T d q)
 
 /-- Python tries `x.__rtruediv__(a)` first when type(x) is a proper subclass of type(a) that
     overrides it: `a` is the generic expression class of the same domain and `x` an immittance -/
@@ -249,7 +259,7 @@ def reflectedDiv (a x : Opd) : Bool :=
   a.q = .undefined && a.dom = x.dom && (x.q = .impedance || x.q = .admittance) && a.const
 
 def divCore (a x0 : Opd) : Outcome :=
-  let x := coerceImmittance T x0 false
+  let x := coerceImmittance T x0 T.flags.divRestoresUnits
   if !divCompat T a x then .err .domains
   else
     match divLookup T a.q x.q with
@@ -261,7 +271,7 @@ def divCore (a x0 : Opd) : Outcome :=
       .ok cd q (a.units - x.units)
 
 def divM (a x : Opd) : Outcome :=
-  if reflectedDiv a x then recipImmittance T x else divCore T a x
+  if reflectedDiv a x then recipImmittance T a.units x else divCore T a x
 
 /-! ## `+`, `-`, `==` -/
 
@@ -287,6 +297,14 @@ def firstMatch {α : Type} : List (Bool × α) → α → α
   | [], d => d
   | (g, v) :: rest, d => if g then v else firstMatch rest d
 
+/-- the quantity test in front of the omega-domain cases (present when `flags.omegaNeedsQuantity`) -/
+def quantitiesCompatible (c : Cfg) (a x : Opd) : Bool :=
+  a.q = x.q || (a.q = .undefined && (c.loose || isTransfer T x.q))
+    || (x.q = .undefined && (c.loose || isTransfer T a.q))
+
+def omegaGuard (c : Cfg) (a x : Opd) : Bool :=
+  !T.flags.omegaNeedsQuantity || quantitiesCompatible T c a x
+
 /-- the `if ...: return cls, ...` statements of `__compat_add__` after the units test, in source
     order; the value is the class chosen (as `(domain, quantity)` of the class) or the error -/
 def compatRulesHead (c : Cfg) (a x : Opd) : List (Bool × Except Err (Domain × Quantity)) :=
@@ -297,10 +315,10 @@ def compatRulesHead (c : Cfg) (a x : Opd) : List (Bool × Except Err (Domain × 
     (a.q = x.q && isConst T x.dom, .ok (a.dom, a.q)),
     (a.q = x.q && a.dom = x.dom, .ok (a.dom, a.q)),
     -- "For phasor comparisons..."
-    (a.dom = .phasorRatio && x.dom = .angularFourier, .ok (a.dom, a.q)),
-    (a.dom = .angularFourier && x.dom = .phasorRatio, .ok (x.dom, x.q)),
-    (a.dom = .angularFrequencyResponse && x.dom = .angularFourier, .ok (a.dom, a.q)),
-    (a.dom = .angularFourier && x.dom = .angularFrequencyResponse, .ok (x.dom, x.q)),
+    (omegaGuard T c a x && (a.dom = .phasorRatio && x.dom = .angularFourier), .ok (a.dom, a.q)),
+    (omegaGuard T c a x && (a.dom = .angularFourier && x.dom = .phasorRatio), .ok (x.dom, x.q)),
+    (omegaGuard T c a x && (a.dom = .angularFrequencyResponse && x.dom = .angularFourier), .ok (a.dom, a.q)),
+    (omegaGuard T c a x && (a.dom = .angularFourier && x.dom = .angularFrequencyResponse), .ok (x.dom, x.q)),
     (a.dom != x.dom, .error .domains) ]
 
 /-- ... the statements after the domain test -/
@@ -338,7 +356,14 @@ def one : Opd := ⟨.constant, .undefined, U.one, false, true, true⟩
 def powM (a : Opd) (n : Int) : Outcome :=
   if n = 2 then mulM T a a
   else if n = -1 then
-    (if a.q = .impedance || a.q = .admittance then recipImmittance T a else divCore T one a)
+    (if a.q = .impedance || a.q = .admittance then recipImmittance T U.one a else divCore T one a)
+  else if T.flags.powSetsUnits then
+    -- generic class of the operand's domain (`expr(n)`'s class for a constant-domain operand),
+    -- units ** n
+    (if !isConst T a.dom then
+       .ok (if a.q = .undefined then a.dom else classByQuantity T a.dom .undefined a.dom)
+         .undefined (U.smul n a.units)
+     else .ok .constant .undefined (U.smul n a.units))
   else if !isConst T a.dom then .ok a.dom a.q (defaultUnits T a.dom a.q)
   else .ok .constant .undefined U.one
 
